@@ -497,6 +497,22 @@ def _simple_initialiser(cls, methods, name):
     return None
 
 
+def autofill(obj, cls_methods):
+    """For objects a harness fills by hand: give every attribute the live
+    constructor assigns and the object lacks the constructor's own value, when
+    that initialiser is a self-contained expression (see
+    `_simple_initialiser`).  Silent otherwise: the hand-written list is then
+    what the harness stands by."""
+    for cls, methods in cls_methods:
+        for name in sorted(init_attrs(cls, methods)):
+            if name in obj.__dict__:
+                continue
+            got = _simple_initialiser(cls, methods, name)
+            if got:
+                setattr(obj, name, got[1])
+                AUTO_FILLED[f'{type(obj).__name__}.{name}'] = got[0]
+
+
 def _fill(obj, attrs: dict, cls_methods):
     need = set()
     for cls, methods in cls_methods:
